@@ -19,7 +19,13 @@ pub struct LawCase {
 }
 
 fn law_strategy(_tier: Tier) -> BoxedStrategy<LawCase> {
-    (cost_strategy(30, false), 1usize..60)
+    (
+        prop_oneof![
+            6 => cost_strategy(30, false),
+            2 => proptest::collection::vec(1u64..60, 1..8).prop_map(|vals| CostSpec::FromIter { vals }),
+        ],
+        1usize..60,
+    )
         .prop_map(|(spec, upto)| LawCase { spec, upto })
         .boxed()
 }
@@ -69,12 +75,14 @@ fn check_laws(c: &LawCase) -> CheckResult {
         CostSpec::Multiframe { costs } => costs.len(),
         CostSpec::Curve { cum, .. } => cum.len(),
         CostSpec::FromTrace { max_n, costs, .. } => (*max_n).min(costs.len()),
+        CostSpec::FromIter { vals } => vals.len(),
         _ => 1,
     };
     out.nontrivial = !c.spec.is_scalar() && n > plen;
     out.label_if(matches!(c.spec, CostSpec::Multiframe { .. }), "multiframe");
     out.label_if(matches!(c.spec, CostSpec::Curve { .. }), "curve");
     out.label_if(matches!(c.spec, CostSpec::FromTrace { .. }), "from-trace");
+    out.label_if(matches!(c.spec, CostSpec::FromIter { .. }), "from-iterator");
     Ok(out)
 }
 
